@@ -403,6 +403,19 @@ class C08(Check):
         for nm, (area, cd, st, en) in spec["leaks"].items():
             wn.get_node(nm).add_leak(wn, area, cd, st, en)
         windows = {nm: (st, en) for nm, (a, c, st, en) in spec["leaks"].items()}
+        for nm, wins in spec.get("extra", {}).items():
+            # more windows at a node that has a leak: time controls on leak_status exactly like the two add_leak makes, defined
+            # AFTER them (controls of equal priority due at the same instant act in definition order: a window that starts
+            # where the previous one ends keeps the leak on)
+            from wntr.network.controls import Control, ControlAction
+            node = wn.get_node(nm)
+            for i, (s2, e2) in enumerate(wins):
+                wn.add_control("xw%d_start_%s" % (i, nm), Control._time_control(wn, int(s2), "SIM_TIME", False, ControlAction(node, "leak_status", True)))
+                wn.add_control("xw%d_end_%s" % (i, nm), Control._time_control(wn, int(e2), "SIM_TIME", False, ControlAction(node, "leak_status", False)))
+                ctx.count("sim_spec:extra_window" + (":back-to-back" if s2 == windows[nm][1] else ""))
+        for nm, (st, en) in windows.items():
+            if st is not None and st == en:
+                ctx.count("sim_spec:empty_window(start=end):" + ("on-grid" if st % spec["hstep"] == 0 else "off-grid"))
         ctx.count("sim_spec:simultaneous_leaks=%d" % len(windows))
         for nm, (st, en) in windows.items():
             if st is not None and en is not None and en > st and st % spec["hstep"] != 0 and st // spec["hstep"] == (en - 1) // spec["hstep"]:
@@ -456,6 +469,8 @@ class C08(Check):
                             active = (st is not None and st <= t and t <= spec["pause"] and fi == 0 and (spec["leaks"][nm][3] is None or t < spec["leaks"][nm][3]))
                         else:
                             active = (st is not None and st <= t) and (en is None or t < en)
+                            # further windows at the same node (extra leak_status time controls defined after add_leak)
+                            active = active or any(s2 <= t < e2 for (s2, e2) in spec.get("extra", {}).get(nm, []))
                     else:
                         active, area, cd, removed = False, 0.0, 0.0, False
                     pos = "in" if active else "out"
@@ -656,9 +671,20 @@ class C08(Check):
         {"mode": "PDD", "hstep": 3600, "report": 3600, "duration": 3 * 3600, "leaks": {"J0": (0.001, 0.75, 3700, 4500), "J2": (0.002, 0.6, 3800, 7100), "T": (0.005, 0.6, 100, 3500)}},
     ]
 
+    DIRECTED_WINDOWS = [
+        # start_time = end_time: an empty window (both controls are due at the same instant, the end control is defined last): never on
+        {"mode": "DD", "hstep": 3600, "report": 3600, "duration": 4 * 3600, "leaks": {"J1": (0.001, 0.6, 7200, 7200), "J2": (5e-4, 0.75, 3600, 3 * 3600)}},
+        {"mode": "PDD", "hstep": 3600, "report": "ALL", "duration": 4 * 3600, "leaks": {"J0": (0.001, 0.6, 5000, 5000), "T": (0.004, 0.75, 5000, 5000), "J2": (5e-4, 0.75, 5000, 9000)}},
+        {"mode": "DD", "hstep": 1800, "report": 1800, "duration": 4 * 1800, "leaks": {"T": (0.004, 0.8, 3600, 3600), "J0": (0.002, 1.0, 0, 0)}},
+        # back-to-back windows at one node: [1h,2h) from add_leak, [2h,4h) from a second pair of controls; also off the grid, also a tank
+        {"mode": "DD", "hstep": 3600, "report": 3600, "duration": 5 * 3600, "leaks": {"J1": (0.001, 0.6, 3600, 7200)}, "extra": {"J1": [(7200, 4 * 3600)]}},
+        {"mode": "PDD", "hstep": 3600, "report": "ALL", "duration": 4 * 3600, "leaks": {"T": (0.004, 0.6, 4000, 5000), "J2": (0.001, 0.75, 100, 3600)},
+         "extra": {"T": [(5000, 9000)], "J2": [(3600, 7200), (9000, 9500)]}},
+    ]
+
     def _gen_sim_specs(self, ctx, n):
         rng = ctx.rng
-        specs = [dict(d, leaks=dict(d["leaks"])) for d in self.DIRECTED_SIMS]
+        specs = [dict(d, leaks=dict(d["leaks"])) for d in self.DIRECTED_SIMS + self.DIRECTED_WINDOWS]
         for i in range(n):
             hstep = rng.choice([3600, 1800, 900])
             nst = rng.randint(3, 6)
@@ -674,8 +700,16 @@ class C08(Check):
                 if rng.random() < 0.15:
                     en = None
                 area = rng.choice([1e-4, 0.001, 0.005]) if nm != "T" else rng.choice([0.002, 0.01])
+                if rng.random() < 0.1:
+                    en = st  # empty window
                 leaks[nm] = (area, rng.choice([0.75, 0.6, 1.0]), st, en)
             spec = {"mode": rng.choice(["DD", "PDD"]), "hstep": hstep, "report": rng.choice(["ALL", hstep, hstep]), "duration": duration, "leaks": leaks}
+            extra = {}
+            for nm, (a_, c_, st, en) in leaks.items():
+                if en is not None and en > st and rng.random() < 0.2:
+                    extra[nm] = [(en, en + rng.choice([hstep, hstep // 2 + 5, 2 * hstep]))]  # a second window starting where the first ends
+            if extra and i % 4 not in (1, 3):
+                spec["extra"] = extra
             if i % 4 == 3:
                 # second run after reset_initial_values; at least one leak (incl. the tank's) is still on when run 1 ends
                 spec["rerun"] = True
@@ -692,6 +726,7 @@ class C08(Check):
             elif rng.random() < 0.35:
                 spec["pause"] = hstep * rng.randint(1, nst - 1)
                 spec["remove"] = [nm for nm in nodes if rng.random() < 0.7] or nodes[:1]
+                spec.pop("extra", None)  # the extra controls are not the leak's: remove_leak would not take them away
             specs.append(spec)
         return specs
 
@@ -708,7 +743,7 @@ class C08(Check):
         failures, broken = [], []
         for fn, c in vlib.corpus_items(self.pid):
             if c.get("kind") == "sim":
-                failures += self._sim_case(ctx, wntr, {k: (tuple(v) if isinstance(v, list) and k != "remove" else v) for k, v in c.items() if k in ("mode", "hstep", "report", "duration", "leaks", "pause", "remove", "isolate", "rerun", "high")} | {"leaks": {n: tuple(v) for n, v in c["leaks"].items()}})
+                failures += self._sim_case(ctx, wntr, {k: (tuple(v) if isinstance(v, list) and k != "remove" else v) for k, v in c.items() if k in ("mode", "hstep", "report", "duration", "leaks", "pause", "remove", "isolate", "rerun", "high", "extra")} | {"leaks": {n: tuple(v) for n, v in c["leaks"].items()}})
         f, b = self._leak_rows(ctx, wntr, 12 if ctx.quick else 120)
         failures += f
         broken += b
@@ -722,7 +757,7 @@ class C08(Check):
             fs = self._sim_case(ctx, wntr, spec)
             failures += fs
             if len(ctx.samples) < 4:
-                ctx.sample({k: spec[k] for k in ("mode", "hstep", "report", "duration", "leaks", "isolate", "rerun", "high") if k in spec} | {"pause": spec.get("pause"), "failures": len(fs)})
+                ctx.sample({k: spec[k] for k in ("mode", "hstep", "report", "duration", "leaks", "isolate", "rerun", "high", "extra") if k in spec} | {"pause": spec.get("pause"), "failures": len(fs)})
         for spec in self._gen_edit_specs(ctx, 4 if ctx.quick else 80):
             failures += self._edit_case(ctx, wntr, spec)
         failures.sort(key=lambda x: len(json.dumps(x.replay, default=str)))
@@ -756,7 +791,7 @@ class C08(Check):
         rp = r.get("replay", {})
         fs = []
         if rp.get("kind") == "sim":
-            spec = {k: rp[k] for k in ("mode", "hstep", "report", "duration", "pause", "remove", "isolate", "rerun", "high") if k in rp and rp[k] is not None}
+            spec = {k: rp[k] for k in ("mode", "hstep", "report", "duration", "pause", "remove", "isolate", "rerun", "high", "extra") if k in rp and rp[k] is not None}
             spec["leaks"] = {n: tuple(v) for n, v in rp["leaks"].items()}
             fs = self._sim_case(ctx, wntr, spec)
         elif rp.get("kind") == "edit":
